@@ -46,6 +46,7 @@ type anyCase struct {
 	M       int     `json:"m,omitempty"`    // reuse
 	How     string  `json:"how,omitempty"`  // loss: cut-fin | cut-rst | server-restart | server-restart-attempt-while-down | server-gone | black-hole
 	When    string  `json:"when,omitempty"` // loss: idle | mid-transfer | during-open
+	Burst   int     `json:"burst,omitempty"` // loss: that many local connections at once after the loss (0 = one)
 	Probe   bool    `json:"probe_recovery,omitempty"`
 	Seed    int64   `json:"seed"`
 	// judged (slow part only): called once when the verdict of the case is in, before anything is torn down.
@@ -353,6 +354,10 @@ func silentSig(e entry) string {
 	switch {
 	case e.Manner == "silent-inner":
 		s += ":after-carrier-handshake"
+	case e.Manner == "silent-after-200":
+		s += ":after-200"
+	case e.Manner == "silent-in-starttls":
+		s += ":in-starttls"
 	case e.Manner == "refused" && e.Kind == "udp":
 		s += ":closed-port"
 	}
@@ -550,8 +555,13 @@ func pools(secure bool) (good, reached, unreached []entry) {
 		unreached = append(unreached, entry{k, "silent"})
 	}
 	unreached = append(unreached, entry{"udp", "refused"}, entry{"tcp+tls", "silent-inner"}, entry{"ws", "silent-inner"})
+	unreached = append(unreached, halfSilent...)
 	return
 }
+
+// halfSilent: upstreams that play a correct server for the first part of the handshake and then fall silent
+var halfSilent = []entry{{"tcp", "silent-after-200"}, {"tcp", "silent-in-starttls"}, {"tcp+tls", "silent-after-200"},
+	{"ws", "silent-after-200"}, {"ws", "silent-in-starttls"}, {"udp", "silent-after-200"}, {"udp", "silent-in-starttls"}}
 
 func listCases(rec *vcommon.Rec) []*anyCase {
 	rng := vcommon.NewRand(rec.Seed(), "c16/list")
@@ -622,9 +632,19 @@ func silentCases(rec *vcommon.Rec) []*anyCase {
 	add(false, "refused", entry{"tcp", "refused"}, entry{"tcp", "silent"}, entry{"ws", "good"})
 	add(true, "none", entry{"tcp", "plain"}, entry{"tcp", "silent"}, entry{"tcp+tls", "good"})
 	add(false, "none", entry{"tcp", "silent"}) // nobody good: must be given up, not held for ever
+	// silent only after a correct first answer / inside StartTLS
+	add(false, "none", entry{"tcp", "silent-after-200"}, entry{"tcp", "good"})
+	add(false, "none", entry{"tcp", "silent-in-starttls"}, entry{"ws", "good"})
+	add(true, "none", entry{"tcp+tls", "silent-after-200"}, entry{"tcp", "good"})
+	add(false, "none", entry{"ws", "silent-after-200"}, entry{"tcp", "plain"})
+	add(true, "none", entry{"ws", "silent-in-starttls"}, entry{"udp", "good"})
+	add(false, "refused", entry{"udp", "silent-after-200"}, entry{"tcp+tls", "good"})
+	add(false, "none", entry{"udp", "silent-in-starttls"}, entry{"tcp", "good"})
+	add(true, "none", entry{"tcp", "hs-close"}, entry{"tcp", "silent-in-starttls"}) // nobody good
 	if rec.Thorough() {
 		rng := vcommon.NewRand(rec.Seed(), "c16/silent")
 		sil := []entry{{"tcp", "silent"}, {"tcp+tls", "silent"}, {"tcp+tls", "silent-inner"}, {"ws", "silent"}, {"ws", "silent-inner"}, {"udp", "silent"}, {"udp", "refused"}}
+		sil = append(sil, halfSilent...)
 		for i, x := range sil {
 			secure := i%2 == 0
 			g, reached, _ := pools(secure)
@@ -767,6 +787,7 @@ func runLoss(rec *vcommon.Rec, c *anyCase) (stalled bool) {
 		return first.Outcome == "stalled"
 	}
 	physBefore := ep.Physical()
+	sessionsBefore := verifhook.Count("server.session") // sessions accepted by the real servers of this process
 
 	lose := func() {
 		switch c.How {
@@ -869,6 +890,9 @@ func runLoss(rec *vcommon.Rec, c *anyCase) (stalled bool) {
 	// let the loss reach the client (FIN/RST delivery on loopback; scripted delay, not a verdict)
 	time.Sleep(500 * time.Millisecond)
 
+	if c.Burst > 0 {
+		return runBurst(rec, c, s, how, physBefore, sessionsBefore, obs)
+	}
 	want := "E0"
 	if c.How == "server-gone" {
 		want = "E1"
@@ -924,6 +948,136 @@ func runLoss(rec *vcommon.Rec, c *anyCase) (stalled bool) {
 	return next.Outcome == "stalled"
 }
 
+// runBurst: after the loss, c.Burst local connections arrive at once. All of them find the dead session; the
+// reference model gives them ONE new physical session which all of them share, each is served with its own
+// data, and it stays that way. The hooks only spread the interleavings (sleeps between the client's lock
+// release and its stream open, staggered per visit; a short sleep inside the lock before the physical open).
+func runBurst(rec *vcommon.Rec, c *anyCase, s *scenario, how string, physBefore, sessionsBefore int64, obs map[string]interface{}) (stalled bool) {
+	ep := s.eps[0]
+	rng := vcommon.NewRand(c.Seed, "c16/burst")
+	step := []time.Duration{2, 5, 9, 16, 30}[rng.Intn(5)] * time.Millisecond
+	inLock := []time.Duration{0, 1, 4}[rng.Intn(3)] * time.Millisecond
+	var visits int64
+	verifhook.Set("upstream.unlocked", func() {
+		k := atomic.AddInt64(&visits, 1) - 1
+		time.Sleep(time.Duration(k%int64(c.Burst+1)) * step)
+	})
+	verifhook.Set("upstream.locked", func() { time.Sleep(inLock) })
+	defer verifhook.Set("upstream.unlocked", nil)
+	defer verifhook.Set("upstream.locked", nil)
+	obs["stagger_step_ms"], obs["sleep_inside_lock_ms"] = step.Milliseconds(), inLock.Milliseconds()
+	rec.Seen("burst(kind,how,when,m,secure)", fmt.Sprintf("%s|%s|%s|%d|%v", c.Kind, c.How, c.When, c.Burst, c.Secure))
+
+	key := uint64(c.Seed)*64 + 20
+	res := make([]*connResult, c.Burst)
+	var wg sync.WaitGroup
+	start := make(chan struct{})
+	for i := 0; i < c.Burst; i++ {
+		wg.Add(1)
+		go func(i int) {
+			defer wg.Done()
+			<-start
+			res[i] = s.connect(key+uint64(i), 4096, stdWait, true)
+		}(i)
+	}
+	close(start)
+	wg.Wait()
+	verifhook.Set("upstream.unlocked", nil)
+	verifhook.Set("upstream.locked", nil)
+	physBurst, sessBurst := ep.Physical()-physBefore, verifhook.Count("server.session")-sessionsBefore
+
+	// "and it stays that way": every connection of the burst, still open, carries a second keyed exchange, one
+	// more local connection is opened, and the counters are read again at the end
+	bad, inconcl, later := 0, 0, 0
+	var outcomes []string
+	for i, r := range res {
+		switch {
+		case r.Outcome == "inconclusive" || r.Outcome == "harness-error" || (r.Data != nil && r.Data.Inconclusive):
+			inconcl++
+		case r.Outcome == "stalled":
+			stalled = true
+			bad++
+		case r.Outcome != "served" || r.By != "E0" || r.Data != nil:
+			bad++
+		}
+		outcomes = append(outcomes, r.short())
+		_ = i
+	}
+	if bad == 0 && inconcl == 0 {
+		fails := make([]*e2e.Failure, len(res))
+		var wg2 sync.WaitGroup
+		for i, r := range res {
+			wg2.Add(1)
+			go func(i int, r *connResult) {
+				defer wg2.Done()
+				k := (key + uint64(i)) * 4
+				ab := &e2e.Stream{Key: k + 3, Len: 6000}
+				ba := &e2e.Stream{Key: k + 3 + 1<<40, Len: 6000}
+				fails[i] = e2e.Duplex(r.app, r.tgt, ab, ba, "c2t", "t2c", []uint64{ab.Key, ba.Key, k + 1, k + 2})
+			}(i, r)
+		}
+		wg2.Wait()
+		for i, f := range fails {
+			switch {
+			case f == nil:
+				atomic.AddInt64(&s.moved, 12000)
+			case f.Inconclusive:
+				inconcl++
+			default:
+				later++
+				stalled = stalled || strings.Contains(f.Kind, "stalled")
+				outcomes[i] += " | second exchange: " + f.Kind
+			}
+		}
+	}
+	var after *connResult
+	if bad == 0 && later == 0 && inconcl == 0 {
+		after = s.connect(key+uint64(c.Burst)+1, 3000, stdWait, false)
+		obs["one_more_local_connection_afterwards"] = after.short()
+		switch {
+		case after.Outcome == "inconclusive" || after.Outcome == "harness-error" || (after.Data != nil && after.Data.Inconclusive):
+			inconcl++
+		case after.Outcome != "served" || after.By != "E0" || after.Data != nil:
+			later++
+			stalled = stalled || after.Outcome == "stalled"
+		}
+	}
+	for _, r := range res {
+		r.done()
+	}
+	physEnd, sessEnd := ep.Physical()-physBefore, verifhook.Count("server.session")-sessionsBefore
+	obs["burst"] = c.Burst
+	obs["outcomes"] = outcomes
+	obs["new_physical_connections_at_the_relay(after_burst,at_end)"] = []int64{physBurst, physEnd}
+	obs["new_sessions_accepted_by_the_server(after_burst,at_end)"] = []int64{sessBurst, sessEnd}
+	obs["client_connect_calls"] = s.cl.Trace.Trials()
+	if inconcl > 0 {
+		rec.Case(c.key(), false)
+		rec.Inconclusive("busy / fixture problem during the burst after the loss", c)
+		return
+	}
+	rec.Case(c.key(), true)
+	rec.Stat("burst:histories_judged", 1)
+	rec.Stat("burst:connections_served_with_verified_data", int64(c.Burst-bad))
+	rec.StatMax("burst:new_physical_sessions_for_one_burst", physEnd)
+	if stalled {
+		obs["goroutines"] = e2e.Clip(e2e.Stacks(), 40000)
+	}
+	// the relay's count is the physical witness, the server's own count of accepted sessions corroborates it
+	switch {
+	case physEnd > 1 && sessEnd > 1:
+		rec.Violation("reconnect:burst:several-new-physical-sessions-after-"+how, c, obs)
+	case physEnd > 1:
+		rec.Note("burst: relay counted more new connections than the server accepted sessions (stray connection?)", obs)
+	}
+	if bad > 0 {
+		rec.Violation("reconnect:burst:connection-not-served-after-"+how, c, obs)
+	} else if later > 0 {
+		rec.Violation("reconnect:burst:connection-breaks-later-after-"+how, c, obs)
+	}
+	return
+}
+
 func b2i(b bool) int64 {
 	if b {
 		return 1
@@ -967,6 +1121,22 @@ func lossCases(rec *vcommon.Rec) (fast, slow []*anyCase) {
 			fast = append(fast, mk(k, "server-gone", "", sec))
 		}
 		fast = append(fast, mk("tcp", "server-restart-attempt-while-down", "", sec), mk("ws", "server-restart-attempt-while-down", "", sec))
+	}
+	// a burst of local connections after the cut; the interleaving is a race, so every history runs several times
+	for rep := 0; rep < rec.Pick(3, 8); rep++ {
+		for _, sec := range secures {
+			for _, k := range []string{"tcp", "tcp+tls", "ws"} {
+				for _, how := range []string{"cut-fin", "cut-rst"} {
+					for _, when := range []string{"idle", "mid-transfer"} {
+						for _, m := range []int{2, 8} {
+							b := mk(k, how, when, sec)
+							b.Burst = m
+							fast = append(fast, b)
+						}
+					}
+				}
+			}
+		}
 	}
 	if rec.Thorough() {
 		fast[0].Probe = true // tcp, FIN while idle: keep trying for 80 s to see whether and when the client recovers (diagnostic)
